@@ -135,7 +135,8 @@ class Gen(object):
         self.max_depth = max_depth
         p = {'group': 1.0, 'macro': 3.0, 'env': 1.0, 'math': 1.2, 'comment': 0.6, 'specials': 0.8,
              'par': 0.5, 'verb': 0.3, 'text': 3.0, 'tokarg': 0.3, 'ws': 0.45, 'arg_ws': 0.25,
-             'arg_comment': 0.06, 'unknown': 0.15, 'absent': 0.5, 'nested_math': 0.5}
+             'arg_comment': 0.06, 'unknown': 0.15, 'absent': 0.5, 'nested_math': 0.5,
+             'verb_chars': None}
         if profile:
             p.update(profile)
         self.p = p
@@ -275,9 +276,9 @@ class Gen(object):
         if k == 'verb':
             if rng.random() < 0.7:
                 d = rng.choice('|!+/"')
-                txt = ''.join(rng.choice('ab \\{}$%&~_^#[]') for _ in range(rng.randint(0, 5)))
+                txt = ''.join(rng.choice(p['verb_chars'] or 'ab \\{}$%&~_^#[]') for _ in range(rng.randint(0, 5)))
                 return ('VERB', d, txt)
-            txt = ''.join(rng.choice(['a', ' ', '\n', '\\', '{', '}', '$', '%', '&', '\\end{x}'])
+            txt = ''.join(rng.choice(list(p['verb_chars'] or ()) or ['a', ' ', '\n', '\\', '{', '}', '$', '%', '&', '\\end{x}'])
                           for _ in range(rng.randint(0, 6)))
             return ('VENV', 'verbatim', txt)
         return ('T', self.text(math))
@@ -356,7 +357,7 @@ class Gen(object):
                     o, c = kind[1], kind[2]
                 else:
                     o, c = rng.choice([('{', '}'), ('|', '|'), ('!', '!'), ('[', ']'), ('<', '>'), ('(', ')')])
-                txt = ''.join(rng.choice('ab \\$%&~_#') for _ in range(rng.randint(0, 5)))
+                txt = ''.join(rng.choice(self.p['verb_chars'] or 'ab \\$%&~_#') for _ in range(rng.randint(0, 5)))
                 if o != c and rng.random() < 0.4:
                     txt = txt + o + 'x' + c + 'y'       # nested delimiters
                 # verbatim arguments: whitespace before the delimiter is skipped
